@@ -459,8 +459,15 @@ class Run:
         if self.collapsed:
             return
         common.beat("oracle: DoLocalRefinement(%d)" % k, {"case": self.case})
-        with contextlib.redirect_stdout(self.out), watchdog(self):
-            self.solver.DoLocalRefinement(k)
+        # the evaluations of the local phase do not count against the runaway cap of the global search (scipy bounds them itself;
+        # a call that never returns is the hang watchdog's business)
+        c0, old = self.calls, self.cap
+        self.cap = float("inf")
+        try:
+            with contextlib.redirect_stdout(self.out), watchdog(self):
+                self.solver.DoLocalRefinement(k)
+        finally:
+            self.cap = old + (self.calls - c0)
 
     def trouble(self, err=None):
         """None, or what went wrong inside the solver other than a legitimate float collapse"""
